@@ -27,6 +27,7 @@ class StandIn:
         self.other = other_sgio_error
         self.replug = replug
         self.counter = 0
+        self.vanished = False
 
     def install(self):
         self.I.external_hook = self.hook
@@ -62,14 +63,22 @@ class StandIn:
             self.fill(args[3])
             return None
         if name == "open":
+            mode = args[1] if len(args) > 1 else kwargs.get("mode", "r")
+            if self.vanished and isinstance(mode, str) and not any(c in mode for c in "wax"):
+                # python's open(): a mode that does not create fails on a missing node
+                raise PyRaise(ExtExc("FileNotFoundError", ("FileNotFoundError", "OSError", "Exception", "BaseException")),
+                              node, frame.where(node))
             self.counter += 1
-            return External("file-handle#%d" % self.counter)
+            h = External("file-handle#%d" % self.counter)
+            h.created_missing_node = bool(self.vanished)
+            return h
         if name.startswith("file-handle") and name.endswith(".close"):
             if self.close_fails == "fork" and I.decide("file.close() raises OSError", node, frame):
                 raise PyRaise(ExtExc("OSError", ("OSError", "Exception", "BaseException")), node, frame.where(node))
             return None
         if name == "os.stat":
             if self.stat_fails == "fork" and I.decide("os.stat raises FileNotFoundError", node, frame):
+                self.vanished = True
                 raise PyRaise(ExtExc("FileNotFoundError", ("FileNotFoundError", "OSError", "Exception", "BaseException")),
                               node, frame.where(node))
             self.counter += 1
